@@ -22,7 +22,7 @@ if os.path.exists(f"{src}/confirm_suite.log"):
     ok = sum(1 for l in lines if "test result: ok" in l)
     passed = sum(int(m.group(1)) for l in lines for m in [re.search(r"(\d+) passed", l)] if m)
     failed = sum(int(m.group(1)) for l in lines for m in [re.search(r"(\d+) failed", l)] if m)
-    suite = f"{len(lines)} test binaries, {ok} ok; {passed} passed, {failed} failed"
+    suite = f"{len(lines)} test binaries reported, {ok} ok; {passed} passed, {failed} failed (baseline: 349 tests; doc-test binaries contain 0 tests)"
 notes = open(f"{src}/notes.md", errors="replace").read() if os.path.exists(f"{src}/notes.md") else ""
 meta = {
     "property": P,
